@@ -177,8 +177,8 @@ def run(ctx):
         "Coq Extraction (ExtrOcamlBasic only; nat stays inductive) + OCaml 4.13 compiler; ocaml/hub_driver.ml "
         "(nat<->int, JSON printing, breadth-first search over erased states keyed by MD5 of Marshal) — a sample of "
         "schedules is re-evaluated with vm_compute in Coq and compared",
-        "harness/hub_sched.py: sys.settrace line-level scheduler, logging subclasses of set/dict/list/defaultdict "
-        "substituted for the hub's containers; every blocking primitive the hub modules can name (Lock/RLock/Event/"
+        "harness/hub_sched.py: sys.settrace line-level scheduler, generic recording proxies around whatever containers "
+        "the hub creates (kind and read/write discovered at run time); every blocking primitive the hub modules can name (Lock/RLock/Event/"
         "Condition/Semaphore, sleep, the threading and time modules) replaced in their namespaces by schedulable versions; "
         "wall-clock watchdog per resume, SIGALRM deadline for the whole check",
         "harness/hub_common.py: configuration generator, canonicaliser, oracle",
